@@ -78,6 +78,9 @@ var ErrInjected = fmt.Errorf("verif: injected fault")
 
 var globalSeq int64
 
+// NextSeq stamps an event of the harness itself (e.g. a lock loss) in the global order of backend calls.
+func NextSeq() int64 { return atomic.AddInt64(&globalSeq, 1) }
+
 // enter registers a call; returns its index (0 when the call is quiet) and the fault to apply.
 func (s *Script) enter(name string) (int, Fault) {
 	if s == nil {
